@@ -34,6 +34,7 @@ impl Rng {
 
 /// Run `f`, mapping a panic to a short class name.
 pub fn catch<T>(f: impl FnOnce() -> T + std::panic::UnwindSafe) -> Result<T, String> {
+    LAST_PANIC_FILE.with(|l| l.borrow_mut().clear());
     match std::panic::catch_unwind(f) {
         Ok(v) => Ok(v),
         Err(e) => {
@@ -47,6 +48,27 @@ pub fn catch<T>(f: impl FnOnce() -> T + std::panic::UnwindSafe) -> Result<T, Str
             Err(classify_panic(&msg))
         }
     }
+}
+
+/// Like `catch`, with the source file of the panic appended (`Class@file.rs`); a panic raised inside the
+/// ttf-parser dependency is prefixed `Dep-ttf-parser-`.
+pub fn catch_loc<T>(f: impl FnOnce() -> T + std::panic::UnwindSafe) -> Result<T, String> {
+    match catch(f) {
+        Ok(v) => Ok(v),
+        Err(class) => {
+            let loc = LAST_PANIC_FILE.with(|l| l.borrow().clone());
+            let base = loc.rsplit('/').next().unwrap_or("").to_string();
+            if loc.contains("/ttf-parser-") {
+                Err(format!("Dep-ttf-parser-{}@{}", class, base))
+            } else {
+                Err(format!("{}@{}", class, base))
+            }
+        }
+    }
+}
+
+thread_local! {
+    pub static LAST_PANIC_FILE: std::cell::RefCell<String> = std::cell::RefCell::new(String::new());
 }
 
 pub fn classify_panic(msg: &str) -> String {
@@ -68,10 +90,15 @@ pub fn classify_panic(msg: &str) -> String {
 }
 
 pub fn quiet_panics() {
-    if std::env::var("RBV_PANIC").is_ok() {
-        return;
-    }
-    std::panic::set_hook(Box::new(|_| {}));
+    let loud = std::env::var("RBV_PANIC").is_ok();
+    let prev = std::panic::take_hook();
+    std::panic::set_hook(Box::new(move |info| {
+        let f = info.location().map(|l| l.file().to_string()).unwrap_or_default();
+        LAST_PANIC_FILE.with(|l| *l.borrow_mut() = f);
+        if loud {
+            prev(info);
+        }
+    }));
 }
 
 pub fn arg_u64(args: &[String], name: &str, default: u64) -> u64 {
